@@ -92,3 +92,104 @@ Definition render_with (code ii_latex : text) (k : dkind) : text :=
 (* observation for the correspondence check *)
 Definition dir_obs (d : directive) : nat * nat * bool :=
   (dstart d, dend d, match dtype d with KSymbol => true | KLatex => false end).
+
+(* ------------------------------------------------------------------------------------------- *)
+(* The file-writing step of the generator (symplyphysics/docs/build.py: _process_law /            *)
+(* _process_law_package; docs/build.py: process_generated_files).  The sequence of file           *)
+(* operations is TRANSLATED from the source by the check; a file is its text and a position.      *)
+(* ------------------------------------------------------------------------------------------- *)
+
+Inductive fop : Type :=
+| FOpenW          (* open(path, "w" / "w+"): truncate to empty (creates the file) *)
+| FOpenRPlus      (* open(path, "r+"): keep the content, position 0; the file must exist *)
+| FOpenA          (* open(path, "a" / "a+"): keep the content, writes go to the end (creates the file) *)
+| FRead           (* file.read(): position moves to the end *)
+| FStopIfEqual    (* if file.read() == new_text: return *)
+| FSeek0          (* file.seek(0) *)
+| FTruncate       (* file.truncate(): cut at the CURRENT position *)
+| FTruncate0      (* file.truncate(0) *)
+| FWrite.         (* file.write(new_text): overwrite from the current position, extending the file *)
+
+Definition fstate : Type := (text * nat)%type.
+
+Definition write_at (pos : nat) (new old : text) : text :=
+  firstn pos old ++ new ++ skipn (pos + List.length new) old.
+
+(* None = the step raises (FileNotFoundError) *)
+Fixpoint run_fops (new : text) (ops : list fop) (exists_ : bool) (st : fstate) : option text :=
+  match ops with
+  | [] => Some (fst st)
+  | o :: r =>
+      let '(c, pos) := st in
+      match o with
+      | FOpenW => run_fops new r true ([], 0)
+      | FOpenRPlus => if exists_ then run_fops new r true (c, 0) else None
+      | FOpenA => run_fops new r true (c, List.length c)
+      | FRead => run_fops new r exists_ (c, List.length c)
+      | FStopIfEqual => if text_eqb c new then Some c else run_fops new r exists_ (c, List.length c)
+      | FSeek0 => run_fops new r exists_ (c, 0)
+      | FTruncate => run_fops new r exists_ (firstn pos c, pos)
+      | FTruncate0 => run_fops new r exists_ ([], pos)
+      | FWrite => run_fops new r exists_ (write_at pos new c, pos + List.length new)
+      end
+  end.
+
+(* what the helper does when the page does not exist yet / exists already *)
+Record writer : Type := mkWriter { if_missing : list fop; if_exists : list fop }.
+
+Definition file_write (w : writer) (old : option text) (new : text) : option text :=
+  match old with
+  | None => run_fops new (if_missing w) false ([], 0)
+  | Some c => run_fops new (if_exists w) true (c, 0)
+  end.
+
+(* the output directory: page name -> text *)
+Definition directory : Type := list (string * text).
+
+Fixpoint dir_get (p : string) (d : directory) : option text :=
+  match d with
+  | [] => None
+  | (q, t) :: r => if String.eqb p q then Some t else dir_get p r
+  end.
+
+Fixpoint dir_set (p : string) (t : text) (d : directory) : directory :=
+  match d with
+  | [] => [(p, t)]
+  | (q, u) :: r => if String.eqb p q then (p, t) :: r else (q, u) :: dir_set p t r
+  end.
+
+Definition gen_step (w : writer) (d : directory) (page : string * text) : directory :=
+  match file_write w (dir_get (fst page) d) (snd page) with
+  | Some c => dir_set (fst page) c d
+  | None => d
+  end.
+
+Definition generate (w : writer) (pages : list (string * text)) (d0 : directory) : directory :=
+  fold_left (gen_step w) pages d0.
+
+(* operation sequences for which "afterwards the file holds exactly the new text" is proved *)
+Definition fop_eqb (a b : fop) : bool :=
+  match a, b with
+  | FOpenW, FOpenW | FOpenRPlus, FOpenRPlus | FOpenA, FOpenA | FRead, FRead | FStopIfEqual, FStopIfEqual
+  | FSeek0, FSeek0 | FTruncate, FTruncate | FTruncate0, FTruncate0 | FWrite, FWrite => true
+  | _, _ => false
+  end.
+
+Fixpoint fops_eqb (a b : list fop) : bool :=
+  match a, b with
+  | [], [] => true
+  | x :: r, y :: s => fop_eqb x y && fops_eqb r s
+  | _, _ => false
+  end.
+
+Definition exact_when_missing : list (list fop) := [[FOpenW; FWrite]; [FOpenA; FWrite]].
+
+Definition exact_when_exists : list (list fop) :=
+  [[FOpenW; FWrite];
+   [FOpenRPlus; FRead; FSeek0; FTruncate0; FWrite];       (* the role step of docs/build.py *)
+   [FOpenRPlus; FSeek0; FTruncate; FWrite];
+   [FOpenRPlus; FStopIfEqual; FSeek0; FTruncate; FWrite];
+   [FOpenRPlus; FStopIfEqual; FSeek0; FTruncate0; FWrite]].
+
+Definition known_exact (w : writer) : bool :=
+  existsb (fops_eqb (if_missing w)) exact_when_missing && existsb (fops_eqb (if_exists w)) exact_when_exists.
